@@ -24,11 +24,35 @@ func computeUsedAndSpare(existing int, maximum int) (used int, spare int)
   ensures  spare: spare == max(maximum - existing, 0)
   ensures  split: existing < maximum ==> used + spare == maximum
 
+// LOGICAL VARIABLE (uninterpreted constant, no axioms): the sharder on whose behalf evict is called. evict is a package-level
+// function and cannot name ls; its only caller ComputeEvictionList binds the variable with `requires ls == theSharder()`. That
+// requires excludes no execution (for every call the constant can be chosen as the receiver): every clause of
+// ComputeEvictionList is proved for all values of the constant, i.e. for every receiver.
+spec fn theSharder() *listsSharder
+
+// LOGICAL VARIABLE (uninterpreted predicate on peer ids, no axioms): any set of ids that contains the ids of the list handed to
+// ComputeEvictionList (bound there by `requires forall k :: listed(pidList[k])`, which excludes no execution: e.g. the set of all
+// ids). `only-listed` of ComputeEvictionList is proved for EVERY such set, in particular for the set of exactly the ids of
+// pidList: that instance is the property clause "only peers from the given list" without an existential witness (the `exists`
+// form only-from-list is kept, undischarged: existential membership clauses flooded every other obligation of the callers).
+spec fn listed(id peer.ID) bool
+
+// identity, used as an instantiation trigger: a quantified clause indexed through idf(j) is only instantiated for index terms
+// that are written with idf
+spec fn idf(k int) int
+  axiom idf(k) == k
+
+// non-preferred-in is CHECKED at each of the seven call sites of ComputeEvictionList (call-pre obligations), non-preferred-out is
+// then available without an antecedent; it is stated on absolute row indexes (a = off(r)+i) so that reads through the six
+// appends of ComputeEvictionList match it syntactically.
 func evict(distances sorting.PeerDistances, numKeep int) (r []peer.ID)
   requires elements-set: forall k :: 0 <= k && k < len(distances) ==> distances[k] != nil
+  requires non-preferred-in: forall k :: 0 <= k && k < len(distances) ==> !theSharder().preferredPeersHolder.Contains(distances[k].ID)
+  requires listed-in: forall k :: 0 <= k && k < len(distances) ==> listed(distances[k].ID)
   ensures  count: len(r) == len(distances) - min(max(numKeep, 0), len(distances))
-  ensures  from-list: forall i :: 0 <= i && i < len(r) ==> (exists k :: 0 <= k && k < len(distances) && r[i] == old(distances[k].ID))
-  ensures  distinct: (forall a, b :: 0 <= a && a < b && b < len(distances) ==> old(distances[a].ID) != old(distances[b].ID)) ==> (forall a, b :: 0 <= a && a < b && b < len(r) ==> r[a] != r[b])
+  ensures  from-list: forall a :: off(r) <= a && a < off(r) + len(r) ==> (exists k :: 0 <= k && k < len(distances) && r[a - off(r)] == old(distances[idf(k)].ID))
+  ensures  non-preferred-out: forall a :: off(r) <= a && a < off(r) + len(r) ==> !theSharder().preferredPeersHolder.Contains(r[a - off(r)])
+  ensures  listed-out: forall a :: off(r) <= a && a < off(r) + len(r) ==> listed(r[a - off(r)])
   ensures  fresh-result: fresh(r)
   assigns  elems(distances)
 
@@ -48,22 +72,45 @@ func (ls *listsSharder) IsSeeder(pid core.PeerID) (r bool)
   pure
   trusted
 
-// splitPeerIds is NOT verified (ls.computeDistance is a call through a func-typed field: whole heap havoc'd in every iteration).
-// Its clauses are read off the code; `preferred-only-among-seeders` deliberately says what the code does (the seeder test comes
-// before the preferred test), not what C44 wants (no preferred peer in any list).
+// splitPeerIds is VERIFIED (repaired code, fix f5ff46b: the preferred test comes FIRST in the loop body, so no-preferred-classified
+// holds for every category, the seeders' list included). The call ls.computeDistance(p, ls.selfPeerId) goes through a func-typed
+// struct field; it is covered by the field contract `computeDistance` below (assumption about the stored function: no effect on
+// caller-visible memory). NOT proved: `counts` — it is the DEFINITION of the uninterpreted catCount (a name for the list lengths,
+// meaningful because ComputeEvictionList calls splitPeerIds exactly once); every other clause is discharged.
 func (ls *listsSharder) splitPeerIds(peers []peer.ID) (r map[int]sorting.PeerDistances)
   requires inv(ls)
+  requires collaborators-set: ls.peerShardResolver != nil && ls.preferredPeersHolder != nil
+  requires listed-peers: forall k :: 0 <= k && k < len(peers) ==> listed(peers[k])
   ensures  categories: has(r, 0) && has(r, 10) && has(r, 20) && has(r, 30) && has(r, 40) && has(r, 50) && has(r, 60)
   ensures  counts: len(r[0]) == catCount(ls, peers, 0) && len(r[10]) == catCount(ls, peers, 10) && len(r[20]) == catCount(ls, peers, 20) && len(r[30]) == catCount(ls, peers, 30) && len(r[40]) == catCount(ls, peers, 40) && len(r[50]) == catCount(ls, peers, 50) && len(r[60]) == catCount(ls, peers, 60)
   ensures  at-most-all: len(r[0]) + len(r[10]) + len(r[20]) + len(r[30]) + len(r[40]) + len(r[50]) + len(r[60]) <= len(peers)
   ensures  fresh-map: fresh(r)
   ensures  entries-set: forall cat, j :: has(r, cat) && 0 <= j && j < len(r[cat]) ==> r[cat][j] != nil
-  ensures  entries-from-list: forall cat, j :: has(r, cat) && 0 <= j && j < len(r[cat]) ==> (exists k :: 0 <= k && k < len(peers) && r[cat][j].ID == peers[k])
-  ensures  preferred-only-among-seeders: forall cat, j :: has(r, cat) && cat != 40 && 0 <= j && j < len(r[cat]) ==> !ls.preferredPeersHolder.Contains(r[cat][j].ID)
+  ensures  entries-listed: forall cat, j :: has(r, cat) && 0 <= j && j < len(r[cat]) ==> listed(r[cat][j].ID)
+  ensures  no-preferred-classified: forall cat, j :: has(r, cat) && 0 <= j && j < len(r[cat]) ==> !ls.preferredPeersHolder.Contains(r[cat][j].ID)
   ensures  seeders-list-holds-seeders: forall j :: 0 <= j && j < len(r[40]) ==> ls.IsSeeder(r[40][j].ID)
   ensures  separate-lists: forall c1, c2 :: has(r, c1) && has(r, c2) && c1 != c2 ==> base(r[c1]) != base(r[c2])
   assigns  nothing
-  trusted
+
+loop 1
+  invariant -1 <= rangeindex && rangeindex < len(peers) || (rangeindex == -1 && len(peers) == 0)
+  invariant fresh(peerDistances)
+  invariant categories: has(peerDistances, 0) && has(peerDistances, 10) && has(peerDistances, 20) && has(peerDistances, 30) && has(peerDistances, 40) && has(peerDistances, 50) && has(peerDistances, 60)
+  invariant fresh-lists: forall c :: has(peerDistances, c) ==> fresh(peerDistances[c])
+  invariant separate-lists: forall c1, c2 :: has(peerDistances, c1) && has(peerDistances, c2) && c1 != c2 ==> base(peerDistances[c1]) != base(peerDistances[c2])
+  invariant entries-set: forall cat, j :: has(peerDistances, cat) && 0 <= j && j < len(peerDistances[cat]) ==> peerDistances[cat][j] != nil && fresh(peerDistances[cat][j])
+  invariant no-preferred-classified: forall cat, j :: has(peerDistances, cat) && 0 <= j && j < len(peerDistances[cat]) ==> !ls.preferredPeersHolder.Contains(peerDistances[cat][j].ID)
+  invariant seeders-list-holds-seeders: forall j :: 0 <= j && j < len(peerDistances[40]) ==> ls.IsSeeder(peerDistances[40][j].ID)
+  invariant entries-listed: forall cat, j :: has(peerDistances, cat) && 0 <= j && j < len(peerDistances[cat]) ==> listed(peerDistances[cat][j].ID)
+  invariant at-most-all: len(peerDistances[0]) + len(peerDistances[10]) + len(peerDistances[20]) + len(peerDistances[30]) + len(peerDistances[40]) + len(peerDistances[50]) + len(peerDistances[60]) <= rangeindex + 1
+
+// the function stored in ls.computeDistance (computeDistanceByCountingBits / computeDistanceLog2Based): called through the
+// func-typed field; assumed to have no effect on caller-visible memory
+func (ls *listsSharder) computeDistance(src peer.ID, dest peer.ID) (r *big.Int)
+  assigns nothing
+
+func (psr p2p.PeerShardResolver) GetPeerInfo(pid core.PeerID) (info core.P2PPeerInfo)
+  assigns nothing
 
 // spare capacity handed down the cascade intra validators -> cross validators -> intra observers -> cross observers -> unknown
 spec fn spare0(ls *listsSharder, p []peer.ID) int = max(ls.maxIntraShardValidators - catCount(ls, p, 0), 0)
@@ -83,12 +130,15 @@ spec fn classified(ls *listsSharder, p []peer.ID) int = catCount(ls, p, 0) + cat
 
 func (ls *listsSharder) ComputeEvictionList(pidList []peer.ID) (r []peer.ID)
   requires inv(ls)
+  requires binds-logical-variable-theSharder: ls == theSharder()
+  requires collaborators-set: ls.peerShardResolver != nil && ls.preferredPeersHolder != nil
+  requires binds-logical-variable-listed: forall k :: 0 <= k && k < len(pidList) ==> listed(pidList[k])
   ensures  evicted-count: len(r) == classified(ls, pidList) - keptAll(ls, pidList)
   ensures  within-target: classified(ls, pidList) - len(r) <= ls.maxPeerCount
   ensures  strict-categories: keptSeeders(ls, pidList) <= ls.maxSeeders && keptFullHist(ls, pidList) <= ls.maxFullHistoryObservers && keptIntraVal(ls, pidList) <= ls.maxIntraShardValidators
   ensures  only-from-list: forall i :: 0 <= i && i < len(r) ==> (exists k :: 0 <= k && k < len(pidList) && r[i] == pidList[k])
+  ensures  only-listed: forall i :: 0 <= i && i < len(r) ==> listed(r[i])
   ensures  no-preferred: forall i :: 0 <= i && i < len(r) ==> !ls.preferredPeersHolder.Contains(r[i])
-  ensures  preferred-only-if-seeder: forall i :: 0 <= i && i < len(r) && ls.preferredPeersHolder.Contains(r[i]) ==> ls.IsSeeder(r[i])
   ensures  cascaded-categories: keptIntraVal(ls, pidList) + keptCrossVal(ls, pidList) <= ls.maxIntraShardValidators + ls.maxCrossShardValidators && keptIntraVal(ls, pidList) + keptCrossVal(ls, pidList) + keptIntraObs(ls, pidList) + keptCrossObs(ls, pidList) <= ls.maxIntraShardValidators + ls.maxCrossShardValidators + ls.maxIntraShardObservers + ls.maxCrossShardObservers
 
 // The quota cascade on plain numbers (e.. = connected peers per category), composed from the contract of computeUsedAndSpare
